@@ -442,7 +442,7 @@ class Repo:
         # helpers that are not functions of the reference tree are inlined back into their callers (sa/inline.py)
         from .inline import inline_extras
 
-        self.inline_log = inline_extras({n: m.tree for n, m in self.modules.items()})
+        self.inline_log = inline_extras({n: m.tree for n, m in self.modules.items()}, self.root)
         if self.inline_log:
             for m in self.modules.values():
                 set_parents(m.tree)
